@@ -497,6 +497,34 @@ Theorem C18_closer_waiting_for_peers_refuted : forall post,
 Proof. intros post. exact (si_close_walk_blocks [] post eq_refl). Qed.
 Print Assumptions C18_closer_waiting_for_peers_refuted.
 
+(* ------------------------------------------------------------------------------------------------
+   Round 8.  A dial that fails AFTER the TCP connect releases the socket: the dial closure of a tls upstream is
+   the program connect ; handshake ; return.  With tlsConn.Close() on a failed handshake it is safe, so for every
+   failing statement nothing is lost; without it the handshake failing on its own loses the socket. *)
+Theorem C18_failed_handshake_releases :
+  si_safeb (si_prog_dial_tls true) = true /\
+  forall f, si_lost (fst (si_exec (si_prog_dial_tls true) 0 f si_st0)) = [].
+Proof. split; [reflexivity|]. apply si_safe_iff. reflexivity. Qed.
+Print Assumptions C18_failed_handshake_releases.
+
+Theorem C18_failed_handshake_leak_refuted :
+  si_safeb (si_prog_dial_tls false) = false /\
+  si_socks (si_lost (fst (si_exec (si_prog_dial_tls false) 0 (Some 1) si_st0))) = 1.
+Proof. split; reflexivity. Qed.
+Print Assumptions C18_failed_handshake_leak_refuted.
+
+(* cacheCtl.Close closes every tier the cache owns, each once, whatever an earlier tier's Close returned *)
+Theorem C18_cache_closes_all_tiers : forall mem redis,
+  si_cache_close false (si_cache_tiers mem redis) = si_cache_tiers mem redis /\
+  NoDup (si_cache_tiers mem redis) /\ si_cache_left false mem redis = [].
+Proof. exact si_cache_close_all. Qed.
+Print Assumptions C18_cache_closes_all_tiers.
+
+(* returning the first tier's Close() result ends the program there: with both tiers redis stays open *)
+Theorem C18_cache_close_early_return_refuted : si_cache_left true true true = [SiTierRedis].
+Proof. exact si_cache_close_early_leaves. Qed.
+Print Assumptions C18_cache_close_early_return_refuted.
+
 (* ---------------- non-vacuity ---------------- *)
 (* Close while a dial is in flight whose result arrives later: the late connection is closed on arrival,
    the waiting caller gets an error, nothing stays open *)
